@@ -5,7 +5,7 @@ import vlib
 def constants(ctx):
     if ctx.quick:
         return {"MaxImportsA": 2, "MaxImportsOther": 1, "MaxDev": 2, "Emit": "TRUE"}
-    return {"MaxImportsA": 3, "MaxImportsOther": 2, "MaxDev": 2, "Emit": "TRUE"}
+    return {"MaxImportsA": 3, "MaxImportsOther": 1, "MaxDev": 2, "Emit": "TRUE"}
 
 
 def run(ctx):
